@@ -29,7 +29,7 @@ func g0List(u *universe, roots []rootRef) []string {
 	for i, rt := range roots {
 		c := u.client(nil)
 		s := resolveOne(newResolver(u.Sys, c), u.Sys, rt, soloDeadline)
-		if s == "timeout" {
+		if s == "timeout" || s == "hang" {
 			out[i] = "T"
 			continue
 		}
